@@ -9,7 +9,10 @@ LEVEL = "exploration"
 TECHNIQUE = "metamorphic monitor: the same program printed under translated syntax configurations and construction paths, rendered by the real engine, with shared-cache stress interleaved"
 RULE = ("generated programs printed (a) with alternative delimiter sets (multi-character, shared-prefix "
         "<% / <%=, angle-bracket, bracket), (b) in line-oriented form with whole-line tags/comments as "
-        "{% %}/{# #} lines vs line statements / line comments under trim_blocks+lstrip_blocks, (c) through "
+        "{% %}/{# #} lines vs line statements / line comments under trim_blocks+lstrip_blocks, where text lines also carry constructs that keep their "
+        "block delimiters in both forms (raw blocks with one-line / multi-line payloads, inline comments, inline "
+        "set / if tags) in every body, so that whole-line tags, end tags and comments of any indentation directly "
+        "follow a line ENDING in endraw / an inline comment / an inline tag, (c) through "
         "Template(src, **opts) vs Environment(**opts).from_string, (d) through overlay(**same) chains of "
         "depth <= 3; outputs must be equal. Isolation: the first environment is re-rendered after > 60 "
         "other lexer configurations and > 10 Template(...) argument sets were used. distinct = program "
@@ -26,6 +29,10 @@ FLOORS = {
     "quick": {"evaluations": 3000, "distinct": 400,
               "counters": {"delimiter_compares": 800, "linestatement_compares": 300,
                            "linestatement_blank_lines_before_tags": 60,
+                           "linestatement_tag_after_line_ending_in_endraw": 65,
+                           "linestatement_indented_tag_after_line_ending_in_endraw": 40,
+                           "linestatement_tag_after_line_ending_in_inline_tag_or_comment": 70,
+                           "linestatement_indented_tag_after_line_ending_in_inline_tag_or_comment": 40,
                            "template_ctor_compares": 300, "overlay_compares": 300,
                            "isolation_rerenders": 150, "lexer_configs_interleaved": 60,
                            "pair_order_checks": 60, "overlay_divergent_option_checks": 100,
@@ -34,6 +41,10 @@ FLOORS = {
     "thorough": {"evaluations": 60000, "distinct": 6000,
                  "counters": {"delimiter_compares": 16000, "linestatement_compares": 6000,
                               "linestatement_blank_lines_before_tags": 1200,
+                              "linestatement_tag_after_line_ending_in_endraw": 1300,
+                              "linestatement_indented_tag_after_line_ending_in_endraw": 800,
+                              "linestatement_tag_after_line_ending_in_inline_tag_or_comment": 1400,
+                              "linestatement_indented_tag_after_line_ending_in_inline_tag_or_comment": 800,
                               "template_ctor_compares": 6000, "overlay_compares": 6000,
                               "isolation_rerenders": 3000, "lexer_configs_interleaved": 60,
                               "pair_order_checks": 60, "overlay_divergent_option_checks": 100,
@@ -100,18 +111,42 @@ def expr_texts_conflict(srcs, sx):
 
 
 # ------------------------------------------------------------------ line-oriented form
-def line_form(body, style, indent_rng, prefix="#", cprefix="##", multiline=False, blanks=False):
+def inline_src(st):
+    """Source of a construct that stays written with block delimiters INSIDE a text line in both forms."""
+    if st[0] == "raw":
+        return "{% raw %}" + st[1] + "{% endraw %}"
+    sub, arg = st[1], st[2]
+    if sub == "comment":
+        return "{# " + arg + " #}"
+    if sub == "set":
+        return "{% set zq = " + str(arg) + " %}"
+    if sub == "if":
+        return "{% if true %}" + arg + "{% endif %}"
+    raise ValueError(sub)
+
+
+def line_form(body, style, indent_rng, prefix="#", cprefix="##", multiline=False, blanks=False, stats=None):
     """Print a statement list line by line.  style 'tags': {% %} tags and
     {# #} comments on their own lines; style 'line': line statements/comments.
-    blanks: empty and whitespace-only lines in front of some whole-line tags (text, in both forms)."""
+    blanks: empty and whitespace-only lines in front of some whole-line tags (text, in both forms).
+    Statements ["raw", s] / ["inline", sub, arg] are part of the running text line in both forms.
+    stats (dict): counts whole-line tags/comments that directly follow a text line ending in such a construct."""
     lines = []
     text_line = [False]    # is the last line a text line?
+    line_end = [None]      # kind of the construct the last text line ends with (None: text / {{ }})
+
+    def note(ind):
+        if stats is not None and text_line[0] and line_end[0] is not None:
+            k = "after_" + line_end[0] + ("_indented" if ind else "")
+            stats[k] = stats.get(k, 0) + 1
 
     def tag(s, ind):
         # blank lines only after TEXT lines: whole-line tags followed by blank lines are outside
         # the property's quantifier (the line-statement end swallows them, undocumented)
         if blanks and text_line[0] and len(lines) % 3 != 0:
             lines.extend([["", "   ", "", "\t"][len(lines) % 4]] * (1 + len(lines) % 2))
+        else:
+            note(ind)
         text_line[0] = False
         if style == "tags":
             lines.append(ind + "{% " + s + " %}")
@@ -119,6 +154,7 @@ def line_form(body, style, indent_rng, prefix="#", cprefix="##", multiline=False
             lines.append(ind + prefix + " " + s)
 
     def comment(s, ind):
+        note(ind)
         text_line[0] = False
         if style == "tags":
             lines.append(ind + "{# " + s + " #}")
@@ -130,17 +166,22 @@ def line_form(body, style, indent_rng, prefix="#", cprefix="##", multiline=False
 
         def flush():
             if cur:
-                lines.append("".join(cur))
+                lines.append("".join(c for c, _ in cur))
                 text_line[0] = True
+                line_end[0] = cur[-1][1]
                 del cur[:]
 
         for st in body:
             ind = " " * indent_rng[len(lines) % len(indent_rng)]
             k = st[0]
             if k == "text":
-                cur.append(st[1])
+                cur.append((st[1], cur[-1][1] if cur and not st[1] else None))
             elif k == "out":
-                cur.append("{{ " + jast.pe_root(st[1]) + " }}")
+                cur.append(("{{ " + jast.pe_root(st[1]) + " }}", None))
+            elif k == "raw":
+                cur.append((inline_src(st), "endraw"))
+            elif k == "inline":
+                cur.append((inline_src(st), "inline_" + st[1]))
             elif k == "comment":
                 flush()
                 comment(st[1], ind)
@@ -204,7 +245,46 @@ def line_program(rng):
                 out.append(["comment", "note " + str(rng.randint(0, 99))])
             out.append(st)
         return out
-    return add_comments(body), stmtgen.make_data(rng)
+    return add_inline(rng, add_comments(body)), stmtgen.make_data(rng)
+
+
+RAW_PAYLOADS = ["r #1", "\n$x$\n", "{{ no var }}", "a\n  b", "", "<b>&</b>", "x\n", "\n# no stmt\ny", "{# no c #}"]
+
+
+def inline_construct(rng):
+    """A construct written with block delimiters in BOTH forms, sitting inside a text line: raw block
+    (one-line / multi-line payload), inline comment, inline set, inline if."""
+    r = rng.random()
+    if r < 0.5:
+        return ["raw", rng.choice(RAW_PAYLOADS)]
+    sub = rng.choice(["comment", "set", "if"])
+    return ["inline", sub, {"comment": "c%d" % rng.randint(0, 9), "set": rng.randint(0, 9),
+                            "if": "y%d" % rng.randint(0, 9)}[sub]]
+
+
+def add_inline(rng, b, p=0.2):
+    """Sprinkle inline constructs through all bodies (in front of any statement and at the end of a
+    body), so that text lines END with endraw / an inline comment / an inline tag right before a
+    whole-line tag, end tag or comment of any indentation."""
+    out = []
+    for st in b:
+        st = list(st)
+        if st[0] == "if":
+            st[1] = [[c, add_inline(rng, bb, p)] for c, bb in st[1]]
+            st[2] = None if st[2] is None else add_inline(rng, st[2], p)
+        elif st[0] == "for":
+            st[3] = add_inline(rng, st[3], p)
+            st[4] = None if st[4] is None else add_inline(rng, st[4], p)
+        elif st[0] == "with":
+            st[2] = add_inline(rng, st[2], p)
+        elif st[0] == "macro":
+            st[3] = add_inline(rng, st[3], p)
+        if rng.random() < p:
+            out.append(inline_construct(rng))
+        out.append(st)
+    if rng.random() < p:
+        out.append(inline_construct(rng))
+    return out
 
 
 def has_callstmt(body):
@@ -222,13 +302,23 @@ def check_lines(ctx, rng):
     ind = [rng.choice([0, 0, 2, 4]) for _ in range(5)]
     ml = rng.random() < 0.5
     bl = rng.random() < 0.5
-    a_src = line_form(body, "tags", ind, multiline=ml, blanks=bl)
+    stats = {}
+    a_src = line_form(body, "tags", ind, multiline=ml, blanks=bl, stats=stats)
     pfx, cpfx = rng.choice([("#", "##"), ("%%", "//"), ("@", "@@")])
     b_src = line_form(body, "line", ind, pfx, cpfx, multiline=ml, blanks=bl)
     if ml:
         ctx.count("linestatement_multiline_brackets")
     if bl and "\n\n" in a_src:
         ctx.count("linestatement_blank_lines_before_tags")
+    # whole-line tags / comments directly below a text line that ENDS in a block-delimited construct
+    if any(k.startswith("after_endraw") for k in stats):
+        ctx.count("linestatement_tag_after_line_ending_in_endraw")
+    if stats.get("after_endraw_indented"):
+        ctx.count("linestatement_indented_tag_after_line_ending_in_endraw")
+    if any(k.startswith("after_inline") for k in stats):
+        ctx.count("linestatement_tag_after_line_ending_in_inline_tag_or_comment")
+    if any(k.startswith("after_inline") and k.endswith("_indented") for k in stats):
+        ctx.count("linestatement_indented_tag_after_line_ending_in_inline_tag_or_comment")
     A = jinja2.Environment(trim_blocks=True, lstrip_blocks=True)
     B = jinja2.Environment(trim_blocks=True, lstrip_blocks=True, line_statement_prefix=pfx,
                            line_comment_prefix=cpfx)
